@@ -1581,6 +1581,9 @@ class CMLHS(Scheme):
             return F == 0 or (not x.F12.is_zero(a) and in_gt(x, x.F12.pow(a, F)) is None)
         if comp.startswith("y["):
             return T["c"][int(comp[2:-1])] is None
+        if comp == "h":
+            # h enters only as [m]h (g1_mul(g1, h, m)): a malformed h cannot reach the equation when m = 0 mod r
+            return T["m"] % x.r == 0
         return False
 
     def facts(self, x, T):
@@ -2200,6 +2203,16 @@ def k_pk_annihilated(case, v, e):
             and (d.get("reason") or "").endswith(":outside-subgroup"))
 
 
+def k_sig_g1_cofactor(case, v, e):
+    """a G1 SIGNATURE element plus a point of order prime to r (only on curves whose G1 has a cofactor): e(T, Q) = 1, so
+    the verification equations of the linearly homomorphic / multi-party PS verifiers cannot see it, and these
+    verifiers have no membership test for signature elements (cp_bls_ver, cp_pss_ver, cp_cls_ver do)"""
+    d = _d(v)
+    return (case.get("scheme") in ("mklhs", "cmlhs", "mpss", "mpsb") and d.get("kind") == "soundness"
+            and d.get("accepted") and not d.get("errored") and d.get("role") == "sig" and d.get("ctype") == "g1"
+            and d.get("mutation") == "mut:sig:g1:cofactor" and (d.get("reason") or "").endswith(":outside-subgroup"))
+
+
 def k_error_accept_b(case, v, e):
     """verifiers that start from result = 1 and only RLC_THROW on an internal error: a plain call returns 1"""
     d = _d(v)
@@ -2255,6 +2268,7 @@ KNOWN_PREDICATES = {
     "c05b_mklhs_overflow": k_mklhs_overflow,
     "c05b_cmlhs_overflow": k_cmlhs_overflow,
     "c05b_pk_annihilated": k_pk_annihilated,
+    "c05b_sig_g1_cofactor": k_sig_g1_cofactor,
     "c05b_ring_scalar_range": k_ring_scalar_range,
     "c05b_etrs_interpolation": k_etrs_interpolation,
     "c05b_etrs_overflow": k_etrs_overflow,
